@@ -38,6 +38,7 @@ type pair struct {
 // obsSpec: everything observed for one event
 type obsSpec struct {
 	Accepted bool      `json:"accepted"`
+	Logged   bool      `json:"logged,omitempty"` // refused although an event was written to the PLog
 	Err      string    `json:"err,omitempty"`
 	NewIDs   []pair    `json:"new_ids"`           // hook sequence (direct) / response map (cmd), sorted by raw id
 	Offset   uint64    `json:"plog_offset"`       // where the event was logged
@@ -188,10 +189,11 @@ func (x *runner) direct(ev *eventSpec) error {
 	obs.Offset = uint64(r.plogNext)
 	obs.NewIDs = append(obs.NewIDs, x.hook...)
 	if e := pe.Error(); e != nil && !e.ValidEvent() {
-		obs.Accepted = false
+		// regeneration failed inside PutPlog: the event is logged as an error event, nothing to apply
+		obs.Accepted, obs.Logged = false, true
+		obs.NewIDs = []pair{}
 		obs.Err = "stored as error event: " + firstLine(e.ErrStr())
-	}
-	if err := as.Records().Apply(pe); err != nil {
+	} else if err := as.Records().Apply(pe); err != nil {
 		obs.ApplyErr = firstLine(err.Error())
 	}
 	if err := as.Events().PutWlog(pe); err != nil {
@@ -260,8 +262,19 @@ func (x *runner) cmd(ev *eventSpec) error {
 	if err != nil {
 		return fmt.Errorf("command send: %w", err)
 	}
+	wsid := istructs.WSID(ev.WS)
 	if rep.Status != 200 {
 		obs.Err = fmt.Sprintf("%d %s", rep.Status, firstLine(rep.Raw))
+		// refused after the event was written? (a failure behind PutPlog; the partition is then restarted)
+		_ = r.life.as.Events().ReadPLog(context.Background(), partID, r.plogNext, 1, func(istructs.Offset, istructs.IPLogEvent) error {
+			obs.Logged = true
+			return nil
+		})
+		if obs.Logged {
+			obs.Offset = uint64(r.plogNext)
+			r.plogNext++
+			r.wlogNext[wsid]++
+		}
 		return nil
 	}
 	obs.Accepted = true
@@ -273,11 +286,11 @@ func (x *runner) cmd(ev *eventSpec) error {
 			obs.NewIDs = append(obs.NewIDs, pair{raw, st})
 		}
 	}
-	if off, err := strconv.ParseUint(fmt.Sprint(rep.Body["CurrentWLogOffset"]), 10, 64); err != nil || off != uint64(r.wlogNext[istructs.WSID(ev.WS)]) {
-		return fmt.Errorf("command reply reports WLog offset %v, expected %d", rep.Body["CurrentWLogOffset"], r.wlogNext[istructs.WSID(ev.WS)])
+	if off, err := strconv.ParseUint(fmt.Sprint(rep.Body["CurrentWLogOffset"]), 10, 64); err != nil || off != uint64(r.wlogNext[wsid]) {
+		obs.Err = fmt.Sprintf("reply reports WLog offset %v, expected %d", rep.Body["CurrentWLogOffset"], r.wlogNext[wsid])
 	}
 	r.plogNext++
-	r.wlogNext[istructs.WSID(ev.WS)]++
+	r.wlogNext[wsid]++
 	return nil
 }
 
@@ -352,7 +365,7 @@ func (x *runner) records(ev *eventSpec) error {
 func readBack(as istructs.IAppStructs, sc *scenario, expectEvents uint64) error {
 	byOff := map[uint64]*eventSpec{}
 	for _, st := range sc.Steps {
-		if st.Event != nil && st.Event.Obs != nil && st.Event.Obs.Accepted {
+		if st.Event != nil && st.Event.Obs != nil && (st.Event.Obs.Accepted || st.Event.Obs.Logged) {
 			byOff[st.Event.Obs.Offset] = st.Event
 		}
 	}
@@ -367,6 +380,10 @@ func readBack(as istructs.IAppStructs, sc *scenario, expectEvents uint64) error 
 			return fmt.Errorf("PLog holds an event at offset %d that no accepted step produced", off)
 		}
 		obs := ev.Obs
+		delete(byOff, uint64(off))
+		if !obs.Accepted {
+			return nil
+		}
 		obs.Arg, obs.Creates, obs.Updates = []rowSpec{}, []rowSpec{}, []rowSpec{}
 		if uint64(e.Workspace()) != ev.WS {
 			return fmt.Errorf("event at %d in workspace %d, expected %d", off, e.Workspace(), ev.WS)
@@ -387,7 +404,6 @@ func readBack(as istructs.IAppStructs, sc *scenario, expectEvents uint64) error 
 			}
 		}
 		sort.Slice(obs.Updates, func(i, j int) bool { return obs.Updates[i].ID < obs.Updates[j].ID })
-		delete(byOff, uint64(off))
 		return nil
 	})
 	if err != nil {
